@@ -196,6 +196,7 @@ def literal_init_family(run, quick):
     big-number folding, HIR constant evaluation, run-time code - all see it), once as `let`, once as `const`, once wrapped in
     `if true { }`. No oracle: the property only demands that the variants agree (verdict and output)."""
     r = run.rng
+    wide = [False]      # an exact intermediate left the 64-bit range [-2^63, 2^64): the compiler then computes in i128 (open finding)
     def expr(t, depth):
         lo, hi = core.tmin(t), core.tmax(t)
         if depth == 0 or r.random() < 0.25:
@@ -218,6 +219,7 @@ def literal_init_family(run, quick):
         else:
             x = xa - xb * (abs(xa) // abs(xb) * (1 if (xa >= 0) == (xb >= 0) else -1))
             w = wa - wb * (abs(wa) // abs(wb) * (1 if (wa >= 0) == (wb >= 0) else -1))
+        if not (-(1 << 63) <= x < (1 << 64)): wide[0] = True
         return "(%s %s %s)" % (sa, op, sb), x, core.wrap(t, w)
     fam = []
     nprog = 8 if quick else 80
@@ -236,14 +238,22 @@ def literal_init_family(run, quick):
                 if op1 == "*": b = r.choice([2, 3])
                 s = "((%d %s %d) %s %d)" % (a, op1, b, op2, d)
                 xi = a + b if op1 == "+" else a * b
+                if not (-(1 << 63) <= xi < (1 << 64)):
+                    # keep the intermediate inside the 64-bit range (gate of F-LIT-WIDE-INTERMEDIATE); overflow of the declared
+                    # type is still reached for every narrower type and for i64
+                    a, b = a // 4, (b // 4 if op1 == "+" else b)
+                    s = "((%d %s %d) %s %d)" % (a, op1, b, op2, d)
+                    xi = a + b if op1 == "+" else a * b
                 wi = core.wrap(t, xi)
                 tq = lambda n, m: abs(n) // abs(m) * (1 if (n >= 0) == (m >= 0) else -1)
                 x = tq(xi, d) if op2 == "/" else xi - d * tq(xi, d)
                 w = tq(wi, d) if op2 == "/" else wi - d * tq(wi, d)
             else:
-              for _ in range(20):
+              for _ in range(40):
+                wide[0] = False
                 s, x, w = expr(t, r.randint(1, 3))
-                if s.startswith("(") and " " in s: break
+                if s.startswith("(") and " " in s and not wide[0]: break
+              if wide[0]: continue
             fits = core.tmin(t) <= x <= core.tmax(t)
             if not fits and not (k % 4 == 3 and stats["final-does-not-fit"] == 0):
                 # three programs in four are acceptable (every exact value fits its declared type; intermediates are free to
